@@ -222,7 +222,7 @@ Example C01_refinement_premises_satisfiable :
   Refine.R.chained_vote rstore Refine.R.genesis 1 (Refine.R.mkProp rblk None) = true.
 Proof.
   cbv zeta. split; [vm_compute; reflexivity|]. split.
-  { eapply reach_step; [apply reach_init|]. apply step_addblock; [reflexivity|discriminate|discriminate]. }
+  { eapply Chained.reach_step; [apply Chained.reach_init|]. apply Chained.step_addblock; [reflexivity|discriminate|discriminate]. }
   split; [reflexivity|]. split.
   { intros h b. unfold rstore, Refine.R.get. cbn [find Refine.R.b_hash Refine.R.genesis rblk].
     destruct (N.eqb_spec 1 h) as [E|_]; [intros [= E2]; subst; reflexivity|].
